@@ -318,11 +318,26 @@ def r5_orphans_index(chk: Check):
     rm = [(n, c) for n, c in g.call_nodes(lambda c: tail(c) == "rmtree")]
     chk.require(len(rm) == 1, chk.fkey(f, "single deletion site"), "orphans must have exactly one deletion site", loc)
     for n, c in rm:
-        gs = sorted((src(t.ast), pol) for t, pol in g.guards(n) if t.kind == "test")
-        ok = gs in (sorted([("key not in xpjobs", True), ("clean", True)]), sorted([("key in xpjobs", False), ("clean", True)]))
-        chk.require(ok, chk.fkey(f, "delete iff clean and unreferenced"), f"orphans deletes under {gs}; expected exactly: --clean and the job is referenced by no index", chk.loc(f.module, c))
+        guards = [(t, pol) for t, pol in g.guards(n) if t.kind == "test"]
+        gs = sorted((src(t.ast), pol) for t, pol in guards)
+        member = [(t, pol) for t, pol in guards if isinstance(t.ast, ast.Compare) and isinstance(t.ast.ops[0], ast.In) and src(t.ast.comparators[0]) == "xpjobs"]
         lp = [a for a in _anc(c) if isinstance(a, ast.For)]
-        chk.require(bool(lp) and "getjobs(jobspath)" in src(lp[0].iter) and src(c.args[0]) == src(lp[0].target.elts[1]), chk.fkey(f, "deletes the orphan itself"), "the deleted path must be the orphan job directory under jobs/", chk.loc(f.module, c))
+        # the listing of jobs/ : either the shared helper getjobs(jobspath) -> (relative key, directory), or the same thing written out
+        listing = None
+        if lp and "getjobs(jobspath)" in src(lp[0].iter) and isinstance(lp[0].target, ast.Tuple) and len(lp[0].target.elts) == 2:
+            listing = (src(lp[0].target.elts[0]), src(lp[0].target.elts[1]), [])
+        elif lp and src(lp[0].iter) == "jobspath.glob('*/*')" and isinstance(lp[0].target, ast.Name):
+            d_ = lp[0].target.id
+            listing = (f"str({d_}.relative_to(jobspath))", d_, [(f"{d_}.is_dir()", True)])
+        okd = False
+        if listing is not None and len(member) == 1 and member[0][1] is False:
+            tnode = member[0][0]
+            want_key = rd.canon(ast.parse(listing[0], mode="eval").body, tnode)
+            okd = rd.canon(tnode.ast.left, tnode) == want_key or src(tnode.ast.left) == listing[0]
+        rest = sorted((src(t.ast), pol) for t, pol in guards if (t, pol) not in member)
+        ok = okd and rest == sorted([("clean", True)] + (listing[2] if listing else []))
+        chk.require(ok, chk.fkey(f, "delete iff clean and unreferenced"), f"orphans deletes under {gs}; expected exactly: --clean and the job is referenced by no index", chk.loc(f.module, c))
+        chk.require(listing is not None and src(c.args[0]) == listing[1], chk.fkey(f, "deletes the orphan itself"), "the deleted path must be the orphan job directory under jobs/", chk.loc(f.module, c))
 
 
 RULES = [
